@@ -16,20 +16,20 @@ SPEC = {
         "only (Base58 decoding tolerates surrounding whitespace by design)",
     ],
     "stages": [
-        gen("vh_c45", "c45_descriptor", 4000, 80000, min_cases_quick=1200,
+        gen("vh_c45", "c45_descriptor", 1400, 40000, min_cases_quick=700,
             floors={"accepted": 0.6, "private-string": 0.08, "hardened": 0.1, "ranged": 0.1, "origin": 0.1, "multipath-expanded": 0.03, "miniscript": 0.05,
                     "tr": 0.04, "wsh": 0.04, "sh": 0.03, "expansion-failed": 0.05, "single-char-strings": 0.6},
             rule="grammar-generated descriptor; accepted => public/private print-parse fixpoints, scripts equal at indexes 0/1/2^31-1, BIP-380 checksum reference, "
                  "every single-character substitution rejected; non-trivial = accepted with >= 2 keys or origin/range/hardened/multipath"),
-        gen("vh_c45", "c45_address", 40000, 800000, min_cases_quick=10000,
+        gen("vh_c45", "c45_address", 20000, 400000, min_cases_quick=10000,
             floors={"p2pkh": 0.05, "p2sh": 0.05, "p2wpkh": 0.05, "p2wsh": 0.05, "p2tr": 0.05, "p2a": 0.05, "witness-unknown": 0.05},
             rule="destination x network: round trip on its network, decoded on the 4 others (invalid unless formats coincide)"),
-        gen("vh_c45", "c45_bech32", 6000, 120000, min_cases_quick=1500, floors={"bech32": 0.3, "bech32m": 0.3, "len=90": 0.05},
+        gen("vh_c45", "c45_bech32", 1200, 40000, min_cases_quick=600, floors={"bech32": 0.3, "bech32m": 0.3, "len=90": 0.05},
             rule="bech32/bech32m strings <= 90 chars: all single substitutions in the data part + 60 sampled 2..4-position substitutions never pass the original checksum"),
-        gen("vh_c45", "c45_bip32", 8000, 160000, min_cases_quick=2000, floors={"hardened-step": 0.2, "unhardened-step": 0.4, "deep": 0.005, "string-roundtrip": 0.5},
+        gen("vh_c45", "c45_bip32", 2400, 60000, min_cases_quick=1200, floors={"hardened-step": 0.2, "unhardened-step": 0.4, "deep": 0.005, "string-roundtrip": 0.5},
             rule="seed + path (depth 0..8, rarely 257): every private step vs own BIP32, neuter/derive commutation, xprv/xpub string round trip per network; "
                  "non-trivial = path mixes hardened and unhardened steps"),
-        hyp("c45_std.py", 2500, 50000, needs=[("san", "sutd")], min_cases_quick=800,
+        hyp("c45_std.py", 1200, 30000, needs=[("san", "sutd")], min_cases_quick=600,
             floors={"kind:bip32": 0.08, "kind:bech32dec": 0.2, "kind:bech32enc": 0.08, "kind:addr": 0.2, "corrupted:invalid": 0.1, "cross:invalid": 0.1},
             rule="sutd vs Python: BIP32 chains (own Python BIP32 on secp256k1.py), bech32 decode/encode vs segwit_addr.py incl. corrupted strings, addresses per "
                  "network vs segwit_addr/own Base58Check incl. corrupted and cross-network decoding"),
@@ -37,11 +37,11 @@ SPEC = {
 }
 
 META = {
-    "level_text": "Per quick run: ~4k grammar-generated descriptors (every function, key kind, origin, path, hardened marker, range, multipath, musig, miniscript "
+    "level_text": "Per quick run: ~1.4k grammar-generated descriptors (every function, key kind, origin, path, hardened marker, range, multipath, musig, miniscript "
                   "templates, tr trees) checked for print/parse fixpoints of the public and private canonical strings, script equality at derivation indexes 0, 1 "
-                  "and 2^31-1, agreement of the checksum with an own BIP-380 implementation and rejection of every single-character substitution (several million "
-                  "corrupted strings); 40k destinations encoded on one network and decoded on all five; 6k bech32(m) strings with all single and sampled 2..4 "
-                  "substitutions; 8k BIP32 chains against an own C++ reference plus ~0.5k chains against a fully independent Python BIP32; bech32 / address "
+                  "and 2^31-1, agreement of the checksum with an own BIP-380 implementation and rejection of every single-character substitution (about two million "
+                  "corrupted strings); 20k destinations encoded on one network and decoded on all five; 1.2k bech32(m) strings with all single and sampled 2..4 "
+                  "substitutions; 2.4k BIP32 chains against an own C++ reference plus ~0.2k chains against a fully independent Python BIP32; bech32 / address "
                   "encode/decode (also of corrupted strings) against segwit_addr.py and an own Base58Check. Exploration over generated inputs, not exhaustive.",
     "technique": "property-based testing: grammar-based generation + round-trip/fixpoint relations + differential testing against independent references "
                  "(own BIP-380 checksum, own BIP32 in C++ and Python, segwit_addr.py, own Base58Check) + deterministic error-detection property (BCH bound)",
